@@ -1,10 +1,11 @@
+import Dcg.Model.Key
 /-
 Dcg.Model.Config — how the effective option values of a CLI run are computed
 (`__main__.py`: `_get_pyproject_toml_config`, `Config.parse_obj`, `Config.merge_args`).
 
-Values are canonical texts (the harness canonicalises the real values the same way:
-`True`/`False`/`None`, enum members by value, lists as `[a,b]`). Option maps are association
-lists; a CLI namespace carries `none` for every option that was not given (argparse default `None`).
+Option names and values are `k!` keys (Dcg/Model/Key.lean) of canonical texts (the harness
+canonicalises the real values the same way: `True`/`False`/`None`, enum members by value, lists as
+`[a,b]`), so that the table theorems are cheap for the kernel. Option maps are association lists; a CLI namespace carries `none` for every option that was not given (argparse default `None`).
 
   parse E m        = Config.parse_obj(m): defaults overridden by `m`, then the coupling
                      `use_annotated ⇒ field_constraints` (validator `validate_root`), then the
@@ -19,13 +20,13 @@ Reviewed exception lists for the table theorems of C18 live at the end of this f
 -/
 namespace Dcg.Model.Config
 
-abbrev Key := String
-abbrev Val := String
+abbrev Key := Nat
+abbrev Val := Nat
 abbrev OptMap := List (Key × Val)
 abbrev Cfg := Key → Val
 
 /-- Python truthiness of a canonical value -/
-def truthy (v : Val) : Bool := !(v == "False" || v == "None" || v == "" || v == "[]" || v == "{}")
+def truthy (v : Val) : Bool := !(v == k! "False" || v == k! "None" || v == k! "" || v == k! "[]" || v == k! "{}")
 
 structure Env where
   /-- `Config` field defaults -/
@@ -33,10 +34,10 @@ structure Env where
   /-- the cross-field validators of `Config` (`false` = `Error` is raised) -/
   valid : Cfg → Bool
 
-def kUA : Key := "use_annotated"
-def kFC : Key := "field_constraints"
-def kOMT : Key := "output_model_type"
-def msgspec : Val := "msgspec.Struct"
+def kUA : Key := k! "use_annotated"
+def kFC : Key := k! "field_constraints"
+def kOMT : Key := k! "output_model_type"
+def msgspec : Val := k! "msgspec.Struct"
 
 /-- last binding wins, as in a Python dict built by successive assignments -/
 def upsert (m : OptMap) (k : Key) (v : Val) : OptMap := (k, v) :: m.filter (fun kv => kv.1 != k)
@@ -44,7 +45,7 @@ def upsert (m : OptMap) (k : Key) (v : Val) : OptMap := (k, v) :: m.filter (fun 
 def over (d : Key → Val) (m : OptMap) : Cfg := fun k => (m.lookup k).getD (d k)
 
 /-- `validate_root`: `if self.use_annotated: self.field_constraints = True` -/
-def validateRoot (c : Cfg) : Cfg := fun k => if k = kFC ∧ truthy (c kUA) = true then "True" else c k
+def validateRoot (c : Cfg) : Cfg := fun k => if k = kFC ∧ truthy (c kUA) = true then k! "True" else c k
 
 def parse (E : Env) (m : OptMap) : Option Cfg :=
   let c := validateRoot (over E.defaults m)
@@ -55,10 +56,10 @@ def given (cli : List (Key × Option Val)) : OptMap :=
   cli.filterMap (fun kv => kv.2.map (fun v => (kv.1, v)))
 
 def coupleMsgspec (s : OptMap) : OptMap :=
-  if s.lookup kOMT = some msgspec then upsert s kUA "True" else s
+  if s.lookup kOMT = some msgspec then upsert s kUA (k! "True") else s
 
 def coupleAnnotated (s : OptMap) : OptMap :=
-  if ((s.lookup kUA).map truthy).getD false = true then upsert s kFC "True" else s
+  if ((s.lookup kUA).map truthy).getD false = true then upsert s kFC (k! "True") else s
 
 def setArgs (cli : List (Key × Option Val)) : OptMap := coupleAnnotated (coupleMsgspec (given cli))
 
@@ -80,7 +81,7 @@ def snake (k : String) : String := String.ofList (k.toList.map (fun c => if c = 
 
 /-- dict comprehension `{k.replace("-", "_"): v …}` (a later duplicate overwrites), then the
 US spelling `capitalize_enum_members` is renamed unless the British one is present -/
-def normaliseKeys (raw : OptMap) : OptMap :=
+def normaliseKeys (raw : List (String × String)) : List (String × String) :=
   let m := raw.foldl (fun acc kv => acc.filter (fun e => e.1 != snake kv.1) ++ [(snake kv.1, kv.2)]) []
   match m.lookup "capitalize_enum_members", m.lookup "capitalise_enum_members" with
   | some v, none => m.filter (fun e => e.1 != "capitalize_enum_members") ++ [("capitalise_enum_members", v)]
@@ -103,77 +104,77 @@ def discover : List Dir → Option Nat
 
 /-! ### The concrete validators of `Config` (used by the driver; the lemmas hold for any `valid`) -/
 
-def isSet (v : Val) : Bool := v != "None"
+def isSet (v : Val) : Bool := v != k! "None"
 
-def validConcrete (kwOnlyTargets : List String) (c : Cfg) : Bool :=
+def validConcrete (kwOnlyTargets : List Nat) (c : Cfg) : Bool :=
   -- validate_original_field_name_delimiter
-  !(isSet (c "original_field_name_delimiter") && !truthy (c "snake_case_field")) &&
+  !(isSet (c (k! "original_field_name_delimiter")) && !truthy (c (k! "snake_case_field"))) &&
   -- validate_custom_file_header
-  !(truthy (c "custom_file_header") && truthy (c "custom_file_header_path")) &&
+  !(truthy (c (k! "custom_file_header")) && truthy (c (k! "custom_file_header_path"))) &&
   -- validate_keyword_only
-  !(truthy (c "keyword_only") && c kOMT == "dataclasses.dataclass" &&
-      !kwOnlyTargets.contains (c "target_python_version")) &&
+  !(truthy (c (k! "keyword_only")) && c kOMT == k! "dataclasses.dataclass" &&
+      !kwOnlyTargets.contains (c (k! "target_python_version"))) &&
   -- validate_output_datetime_class
-  !(truthy (c "output_datetime_class") && c "output_datetime_class" != "datetime" &&
-      c kOMT == "dataclasses.dataclass")
+  !(truthy (c (k! "output_datetime_class")) && c (k! "output_datetime_class") != k! "datetime" &&
+      c kOMT == k! "dataclasses.dataclass")
 
 /-! ### Reviewed exception lists (C18 table theorems) -/
 
 /-- argparse actions that are not generator options -/
-def metaDests : List String := ["help", "no_color", "version"]
+def metaDests : List Nat := [k! "help", k! "no_color", k! "version"]
 
 /-- `Config` fields consumed by `main()` itself (logging / warnings), not generator options -/
-def consumedInMain : List String := ["debug", "disable_warnings"]
+def consumedInMain : List Nat := [k! "debug", k! "disable_warnings"]
 
 /-- reviewed renames `Config` field → `generate()` keyword -/
-def renames : List (String × String) :=
-  [("use_default", "apply_default_values_for_required_fields"),
-   ("force_optional", "force_optional_for_required_fields")]
+def renames : List (Nat × Nat) :=
+  [(k! "use_default", k! "apply_default_values_for_required_fields"),
+   (k! "force_optional", k! "force_optional_for_required_fields")]
 
-def rename (f : String) : String := (renames.lookup f).getD f
+def rename (f : Nat) : Nat := (renames.lookup f).getD f
 
 /-- `Config` fields that reach `generate()` through a reviewed expression other than `config.<field>`:
 file-valued options are opened by the `Config` validator, loaded with `json.load` in `main()` into a local
 of the same name; `input`/`url` are combined into `input_`. (field, keyword, expression text) -/
-def specialForward : List (String × String × String) :=
-  [("extra_template_data", "extra_template_data", "extra_template_data"),
-   ("aliases", "aliases", "aliases"),
-   ("custom_formatters_kwargs", "custom_formatters_kwargs", "custom_formatters_kwargs"),
-   ("input", "input_", "config.url or config.input or sys.stdin.read()"),
-   ("url", "input_", "config.url or config.input or sys.stdin.read()")]
+def specialForward : List (Nat × Nat × Nat) :=
+  [(k! "extra_template_data", k! "extra_template_data", k! "extra_template_data"),
+   (k! "aliases", k! "aliases", k! "aliases"),
+   (k! "custom_formatters_kwargs", k! "custom_formatters_kwargs", k! "custom_formatters_kwargs"),
+   (k! "input", k! "input_", k! "config.url or config.input or sys.stdin.read()"),
+   (k! "url", k! "input_", k! "config.url or config.input or sys.stdin.read()")]
 
 /-- parameters of `generate()` that are consumed by `generate()` itself (input handling, output writing,
 model-class selection) instead of being passed to the parser under their own name; with where they go -/
-def consumedInGenerate : List (String × String) :=
-  [("input_", "source=, base_path="),
-   ("input_filename", "file header"),
-   ("input_file_type", "selects parser_class"),
-   ("output", "chdir + file map"),
-   ("output_model_type", "get_data_model_types"),
-   ("disable_timestamp", "file header"),
-   ("enable_version_header", "file header"),
-   ("custom_file_header", "file header"),
-   ("custom_file_header_path", "file header"),
-   ("graphql_scopes", "unused (noqa: ARG001), not a CLI option"),
-   ("union_mode", "default_field_extras="),
-   ("output_datetime_class", "target_datetime_class= and get_data_model_types"),
-   ("openapi_scopes", "kwargs[\"openapi_scopes\"] for OpenAPIParser only")]
+def consumedInGenerate : List (Nat × Nat) :=
+  [(k! "input_", k! "source=, base_path="),
+   (k! "input_filename", k! "file header"),
+   (k! "input_file_type", k! "selects parser_class"),
+   (k! "output", k! "chdir + file map"),
+   (k! "output_model_type", k! "get_data_model_types"),
+   (k! "disable_timestamp", k! "file header"),
+   (k! "enable_version_header", k! "file header"),
+   (k! "custom_file_header", k! "file header"),
+   (k! "custom_file_header_path", k! "file header"),
+   (k! "graphql_scopes", k! "unused (noqa: ARG001), not a CLI option"),
+   (k! "union_mode", k! "default_field_extras="),
+   (k! "output_datetime_class", k! "target_datetime_class= and get_data_model_types"),
+   (k! "openapi_scopes", k! "kwargs[\"openapi_scopes\"] for OpenAPIParser only")]
 
 /-- reviewed non-identity expressions in the `parser_class(...)` call (keyword, expression text) -/
-def parserCallSpecial : List (String × String) :=
-  [("enum_field_as_literal",
-    "LiteralType.All if output_model_type == DataModelType.TypingTypedDict else enum_field_as_literal"),
-   ("set_default_enum_member",
-    "True if output_model_type == DataModelType.DataclassesDataclass else set_default_enum_member")]
+def parserCallSpecial : List (Nat × Nat) :=
+  [(k! "enum_field_as_literal",
+    k! "LiteralType.All if output_model_type == DataModelType.TypingTypedDict else enum_field_as_literal"),
+   (k! "set_default_enum_member",
+    k! "True if output_model_type == DataModelType.DataclassesDataclass else set_default_enum_member")]
 
 /-- (Config field) whose default differs from the default of the `generate()` parameter, reviewed:
 `strict_types` `[]` vs `None` (both falsy, `strict_types or ()`), `openapi_scopes` `[schemas]` vs `None`
 (OpenAPIParser: `openapi_scopes or [OpenAPIScope.Schemas]`), `encoding` (locale default vs "utf-8") -/
-def defaultDiffers : List String := ["strict_types", "openapi_scopes", "encoding"]
+def defaultDiffers : List Nat := [k! "strict_types", k! "openapi_scopes", k! "encoding"]
 
 /-- subclass constructor parameters not forwarded by name to `Parser.__init__` (consumed by the subclass) -/
-def subclassOwnParams : List (String × String) :=
-  [("OpenAPIParser", "openapi_scopes"),
-   ("GraphQLParser", "data_model_scalar_type"), ("GraphQLParser", "data_model_union_type")]
+def subclassOwnParams : List (Nat × Nat) :=
+  [(k! "OpenAPIParser", k! "openapi_scopes"),
+   (k! "GraphQLParser", k! "data_model_scalar_type"), (k! "GraphQLParser", k! "data_model_union_type")]
 
 end Dcg.Model.Config
